@@ -705,6 +705,28 @@ def _helper_param_is_key_only(call: ast.Call, pos: int, fnode: Optional[ast.AST]
     if name is None or root is None:
         return False
     cands = [f for f in ast.walk(root) if isinstance(f, (ast.FunctionDef, ast.AsyncFunctionDef)) and f.name == name]
+    if not cands:
+        # a small class of the module used as `with Marker(visited, obj_id):` - the constructor stores the value, and every method uses the
+        # stored attribute only in set add/discard/remove, comparisons and subscripts
+        klass = [c for c in ast.walk(root) if isinstance(c, ast.ClassDef) and c.name == name]
+        if len(klass) == 1:
+            init = [f for f in klass[0].body if isinstance(f, ast.FunctionDef) and f.name == "__init__"]
+            if init:
+                ps = [a.arg for a in init[0].args.args][1:]
+                if pos < len(ps):
+                    attrs = {t.attr for st in ast.walk(init[0]) if isinstance(st, ast.Assign) and isinstance(st.value, ast.Name) and st.value.id == ps[pos]
+                             for t in st.targets if isinstance(t, ast.Attribute)}
+                    if attrs:
+                        for x in ast.walk(klass[0]):
+                            if isinstance(x, ast.Attribute) and x.attr in attrs and isinstance(x.ctx, ast.Load):
+                                pp = parent(x)
+                                if isinstance(pp, (ast.Compare, ast.Subscript)):
+                                    continue
+                                if isinstance(pp, ast.Call) and isinstance(pp.func, ast.Attribute) and pp.func.attr in ("add", "discard", "remove") and x in pp.args:
+                                    continue
+                                return False
+                        return True
+        return False
     if len(cands) != 1:
         return False
     h = cands[0]
